@@ -18,6 +18,7 @@ Not decided: energies themselves.
 """
 import ast
 
+from ._common import resolve_in_block
 from ..model import AnalysisError, dotted, unparse, walk_local
 from ..engines import owner
 
@@ -211,7 +212,7 @@ def _flips(fn):
                     one = isinstance(s.value, ast.Constant) and s.value.value == 1
                     counts.append(((1 if isinstance(s.op, ast.Add) else -1) if one else 0, None, False, s))
                 if isinstance(s, ast.For):
-                    it = unparse(s.iter)
+                    it = unparse(resolve_in_block(s, s.iter))
                     for cu in _count_updates_in(s):
                         counts.append(cu)
                         # which site's list is iterated
@@ -257,7 +258,7 @@ def _trial(fn):
                 guard = s.test.comparators[0].value
                 for inner in s.body:
                     if isinstance(inner, ast.For):
-                        iter_ok = unparse(inner.iter) == 'self.siteinteract[%s][:self.Ninteract[%s]]' % (site, site)
+                        iter_ok = unparse(resolve_in_block(inner, inner.iter)) == 'self.siteinteract[%s][:self.Ninteract[%s]]' % (site, site)
                         signs = set()
                         for n in ast.walk(inner):
                             if isinstance(n, ast.AugAssign) and isinstance(n.value, ast.Constant) and n.value.value == 1:
@@ -269,6 +270,11 @@ def _trial(fn):
                                 elif isinstance(v, ast.UnaryOp) and isinstance(v.op, ast.USub) and isinstance(v.operand, ast.Constant) \
                                         and v.operand.value == 1:
                                     signs.add(-1)
+                                elif isinstance(v, ast.BinOp) and isinstance(v.op, (ast.Add, ast.Sub)) and isinstance(v.right, ast.Constant) \
+                                        and v.right.value == 1 and unparse(v.left) in (
+                                            unparse(n.targets[0]), '%s.get(%s, 0)' % (unparse(n.targets[0].value), unparse(n.targets[0].slice))):
+                                    # d[k] = d.get(k, 0) + 1  /  d[k] = d[k] - 1 : the spelled-out increment
+                                    signs.add(1 if isinstance(v.op, ast.Add) else -1)
                         sign = signs.pop() if len(signs) == 1 else 0
                         out.append((unparse(lp.iter), guard, sign, iter_ok, inner))
     return out
